@@ -115,6 +115,16 @@ func (n *Net) Arm(link string, f Fault) {
 func (n *Net) Disarm(link string) {
 	n.mu.Lock()
 	defer n.mu.Unlock()
+	// a stall is finite: when the fault is lifted, connections it swallowed are reset (what a real
+	// network's keep-alives or the peer's RST eventually do)
+	for _, c := range n.conns {
+		c.mu.Lock()
+		if c.blackhole && !c.closed && (link == "" || c.link == link) {
+			c.blackhole, c.resetOnWrite = false, true
+			c.r.fail(&net.OpError{Op: "read", Net: "sim", Addr: c.remote, Err: syscall.ECONNRESET})
+		}
+		c.mu.Unlock()
+	}
 	if link == "" {
 		n.faults = map[string][]*Fault{}
 		return
@@ -208,6 +218,7 @@ func (n *Net) Dial(from, addr string) (net.Conn, error) {
 		case FaultStall:
 			// bytes vanish; nothing ever comes back; the server never sees the connection
 			cl.blackhole = true
+			cl.link = link
 			n.track(cl)
 			return cl, nil
 		case FaultReset:
@@ -463,6 +474,7 @@ type Conn struct {
 	remote net.Addr
 	peer   *Conn
 	server bool
+	link   string
 
 	mu              sync.Mutex
 	closed          bool
